@@ -317,8 +317,8 @@ _CORPUS = ("C28_arith", "C28_loops", "C28_classes")
 
 
 def _side_condition() -> dict:
-    """For three corpus modules and the REAL operators: the default enumeration, one capped+reordered enumeration
-    and one second-order enumeration leave ``ast.dump(tree)`` unchanged; every mutant differs from the original; the
+    """For three corpus modules and the REAL operators: the default enumeration, one capped+reordered enumeration,
+    enumerations abandoned after k mutants and one second-order enumeration leave ``ast.dump(tree)`` unchanged; every mutant differs from the original; the
     sampled enumeration yields only mutants of the full enumeration, ``min(cap, N)`` of them, loop operators last;
     ``mutation_count`` equals the size of the full enumeration.  Evaluated concretely on every run."""
     import ast
@@ -395,6 +395,21 @@ def _side_condition() -> dict:
                 problems.append(f"{name}: tree changed by the capped/reordered enumeration (cap={cap})")
             if mutator.mutation_count(tree, module) != n:
                 problems.append(f"{name}: mutation_count {mutator.mutation_count(tree, module)} != {n} (cap={cap})")
+        # an enumeration that is abandoned after k mutants (time limit reached, consumer gone) restores the tree too
+        for kwargs in ({}, {"maximum_mutants": max(n // 2, 1), "sampling_seed": 3, "reorder": True}):
+            for k in sorted({1, 2, max(n // 3, 1), max(n // 2, 1), max(n - 1, 1)}):
+                gen = mu.FirstOrderMutator(operators, **kwargs).mutate(tree, module)
+                try:
+                    for i, _ in enumerate(gen):
+                        cases += 1
+                        if i + 1 >= k:
+                            break
+                    gen.close()
+                except Exception as e:  # noqa: BLE001
+                    problems.append(f"{name}: abandoning the enumeration after {k} mutants raised {type(e).__name__}: {e}")
+                if ast.dump(tree) != original:
+                    problems.append(f"{name}: tree changed by an enumeration abandoned after {k} mutants ({kwargs or 'default'})")
+                    tree = ParentNodeTransformer.create_ast(open(path).read())
         hom = mu.HighOrderMutator(operators, hom_strategy=FirstToLastHOMStrategy(2))
         used = 0
         try:
